@@ -198,7 +198,7 @@ func checkC08(c c08Case, rec *Rec) *Violation {
 	return nil
 }
 
-var c08Patterns = []string{"||example.org^", "example", "|http://example.org/", "||example.org/ads/*", "example.org/", "||google.com^", "/ads/x", "||a.com^", "ab", "-ad-", "/x"} // the last three are too short for the shortcut index
+var c08Patterns = []string{"||example.org^", "example", "|http://example.org/", "||example.org/ads/*", "example.org/", "||google.com^", "/ads/x", "||a.com^", "ab", "-ad-", "/x", "||example.org/price\\$list", "/cost\\$"} // the last three are too short for the shortcut index
 
 // c08TwinColliders: pairs of $badfilter rule texts (short patterns: sequential table) with equal FastHash.
 var c08TwinColliders = findColliders("x^", "^$badfilter", 3)
@@ -502,6 +502,13 @@ func genC08(t *rapid.T) c08Case {
 			q.Src = "http://" + pick(t, "hash-src-host", hashSrc) + "/"
 		}
 		c.Reqs = append(c.Reqs, q)
+	}
+	for _, m := range models {
+		if strings.Contains(m.Pat, "\\$") {
+			// patterns with an escaped dollar sign: the address with the plain sign and with the escape as written
+			c.Reqs = append(c.Reqs, Q{URL: "https://example.org/price$list", Typ: "script"}, Q{URL: "http://x.com/cost$", Typ: "image"}, Q{URL: "https://example.org/price\\$list", Typ: "script"})
+			break
+		}
 	}
 	return c
 }
